@@ -263,7 +263,25 @@ def ev(e, env, funcs=None):
             st = ev(s.step, env, funcs) if s.step is not None else None
             return v[lo:hi:st]
         return v[ev(s, env, funcs)]
+    if isinstance(e, ast.JoinedStr):
+        out = []
+        for v in e.values:
+            if isinstance(v, ast.Constant):
+                out.append(str(v.value))
+            elif isinstance(v, ast.FormattedValue):
+                val = ev(v.value, env, funcs)
+                spec = ev(v.format_spec, env, funcs) if v.format_spec is not None else ''
+                if v.conversion == 114:
+                    val = repr(val)
+                elif v.conversion == 115:
+                    val = str(val)
+                out.append(format(val, spec))
+            else:
+                raise NotClosed('fstring part')
+        return ''.join(out)
     if isinstance(e, ast.Call):
+        if isinstance(e.func, ast.Name) and e.func.id == 'format' and len(e.args) == 2 and not e.keywords:
+            return format(ev(e.args[0], env, funcs), ev(e.args[1], env, funcs))
         if isinstance(e.func, ast.Name) and e.func.id in ('len', 'int', 'min', 'max', 'str') and not e.keywords:
             args = [ev(a, env, funcs) for a in e.args]
             return {'len': len, 'int': int, 'min': min, 'max': max, 'str': str}[e.func.id](*args)
@@ -306,3 +324,45 @@ def free_paths(e):
 def require(cond, msg):
     if not cond:
         raise AnalysisError(msg)
+
+
+def abstract(expr, table):
+    """copy of `expr` in which every sub-expression whose source text is a key of `table` is replaced by the name
+    table[text] - lets a rule evaluate a test over named quantities whether or not the code keeps them in locals"""
+    class T(ast.NodeTransformer):
+        def visit(self, n):
+            if isinstance(n, ast.expr):
+                try:
+                    t = ast.unparse(n)
+                except Exception:
+                    t = None
+                if t in table:
+                    return ast.copy_location(ast.Name(id=table[t], ctx=ast.Load()), n)
+            return self.generic_visit(n)
+    from .normalize import clone
+    return ast.fix_missing_locations(T().visit(clone(expr)))
+
+
+def named_view(fn, table):
+    """A copy of function `fn` in which the quantities of `table` (source text -> name) carry their names wherever they
+    are read, with parent links and the module reference of the original: rules that speak about named quantities
+    ("the declared minimum length", "the element value") work on this view, so that it makes no difference whether the
+    code keeps such a quantity in a local variable or re-reads it.  Returns (view, set of table keys that occur)."""
+    found = set()
+    for n in ast.walk(fn):
+        if isinstance(n, ast.expr):
+            try:
+                t = ast.unparse(n)
+            except Exception:
+                continue
+            if t in table:
+                found.add(t)
+    v = abstract(fn, table)
+    for n in ast.walk(v):
+        for c in ast.iter_child_nodes(n):
+            if not isinstance(c, (ast.expr_context, ast.operator, ast.unaryop, ast.boolop, ast.cmpop)):
+                c._parent = n
+    for a in ('_mod', '_qual'):
+        if hasattr(fn, a):
+            setattr(v, a, getattr(fn, a))
+    return v, found
